@@ -47,6 +47,15 @@ CHECKS = {
         "Trusted: vfw/model/links.py. Corner cells are masked (covered by C12).",
         "DESIGN.md 4/C05",
     ),
+    "C06": (
+        "Hypothesis-generated chunk compositions x schedulers x operation kinds; differential lazy vs in-memory + counting scheduler",
+        "Generated-input search over operation kinds (stencils, cumsum/cumint, integrate/average/derivative, apply_as_grid_ufunc "
+        "with parallelized and map_overlap modes, face-connected scalar and vector) x compositions of every dimension into "
+        "chunks x schedulers; oracle: zero scheduler invocations while building, compute() equals the in-memory result, "
+        "NotImplementedError only in the stated case.",
+        "Trusted: dask's schedulers; thread interleavings are not controlled (pure graphs).",
+        "DESIGN.md 4/C06",
+    ),
     "C07": (
         "Hypothesis-generated column profiles x bins vs exact rational overlap model + conservation / merge / reversal / independence relations",
         "Generated-input search at kernel and Grid.transform level; the weight matrix is extracted with unit vectors and compared "
@@ -76,6 +85,22 @@ CHECKS = {
         "checked against formulas using the metric shown acceptable.",
         "Trusted: reference interpolation (C01 model), xarray broadcasting in the expected-value formulas.",
         "DESIGN.md 4/C10",
+    ),
+    "C11": (
+        "Hypothesis-generated signatures/bindings/option routes with a recording user function vs reference padded-argument model",
+        "Generated-input search over user programs: signatures (1-3 inputs, 0-2 outputs), dummy-to-real bindings, widths, rules, "
+        "and the route by which each option is supplied (definition, type hints, call, both); the user function records its "
+        "arguments, which are compared with the reference padding of the transposed inputs.",
+        "Trusted: index-level padding model (C02); all inputs share their broadcast dims.",
+        "DESIGN.md 4/C11",
+    ),
+    "C14": (
+        "Hypothesis-generated layouts rendered as COMODO / SGRID metadata vs the two documented tables + explicit-coords differential",
+        "Generated-input search filling every cell of the COMODO table (5 positions x shift signs x n in {1,2,>=3}) and the SGRID "
+        "table (4 paddings x 4 topology kinds x 2 spacings) with arbitrary, mutually-substring dimension names; also both "
+        "conventions at once and the coords-conflict rejection.",
+        "Trusted: the tables as documented in doc/grids.rst.",
+        "DESIGN.md 4/C14",
     ),
     "C15": (
         "bounded exhaustive enumeration + all single-character corruptions + Hypothesis, vs own grammar recogniser and canonical form",
